@@ -1,7 +1,72 @@
 package secp256k1
 
-import "testing"
+import (
+	"bytes"
+	"crypto/rand"
+	"errors"
+	"io"
+	"math/big"
+	"testing"
+)
 
-func vRunCase2(t *testing.T, c vCase) string {
-	return "unknown case kind " + c.Kind
+type vScriptReader struct {
+	data []byte
+}
+
+func (r *vScriptReader) Read(p []byte) (int, error) {
+	if len(r.data) == 0 {
+		return 0, errors.New("scripted entropy failure")
+	}
+	n := copy(p, r.data)
+	r.data = r.data[n:]
+	return n, nil
+}
+
+var _ io.Reader = (*vScriptReader)(nil)
+
+func vRunCase2(t *testing.T, c vCase) (msg string) {
+	switch c.Kind {
+	case "random":
+		stream := vHex(c.A)
+		var want *big.Int
+		for i := 0; i+32 <= len(stream); i += 32 {
+			v := new(big.Int).SetBytes(stream[i : i+32])
+			v.Mod(v, vN)
+			if v.Sign() != 0 {
+				want = v
+				break
+			}
+		}
+		old := rand.Reader
+		rand.Reader = &vScriptReader{data: append([]byte(nil), stream...)}
+		defer func() { rand.Reader = old }()
+		panicked := false
+		var got *Scalar
+		func() {
+			defer func() {
+				if r := recover(); r != nil {
+					panicked = true
+				}
+			}()
+			got = NewScalar().Random()
+		}()
+		if want == nil {
+			if !panicked {
+				return "entropy source failed before any usable block but Random returned " + got.Hex()
+			}
+			return ""
+		}
+		if panicked {
+			return "Random panicked although a usable block was delivered"
+		}
+		if !bytes.Equal(got.Encode(), vPad32(want)) {
+			return "Random = " + got.Hex() + ", want first non-zero block mod n = " + want.Text(16)
+		}
+		if got.IsZero() {
+			return "Random returned zero"
+		}
+	default:
+		return vRunCase3(t, c)
+	}
+	return ""
 }
